@@ -238,10 +238,14 @@ func c11ConcWorkerRun(cc c11ConcCase, concurrent bool) (string, []Fail) {
 		}
 		var mu sync.Mutex
 		var first *bad
-		nbad, total := 0, 0
+		nbad, total, started := 0, 0, 0
 		start := make(chan struct{})
 		var wg sync.WaitGroup
 		n := len(cc.batches)
+		// the rounds stop after a time budget (a loaded machine, a case with many amplicons): what counts is that every call
+		// that was started returns the answer obtained alone
+		budget := 20 * time.Second * watchdogScale()
+		t0 := time.Now()
 		for k := 0; k < cc.g; k++ {
 			wg.Add(1)
 			go func(k int) {
@@ -250,6 +254,13 @@ func c11ConcWorkerRun(cc c11ConcCase, concurrent bool) (string, []Fail) {
 				for round := 0; round < cc.r; round++ {
 					for j := 0; j < n; j++ {
 						i := (j + k) % n
+						mu.Lock()
+						if started >= cc.g && time.Since(t0) > budget {
+							mu.Unlock()
+							return
+						}
+						started++
+						mu.Unlock()
 						got := call(shared, i, 3)
 						mu.Lock()
 						total++
@@ -270,8 +281,11 @@ func c11ConcWorkerRun(cc c11ConcCase, concurrent bool) (string, []Fail) {
 		statMu.Lock()
 		stats["conc:worker-calls"] += total
 		statMu.Unlock()
-		if want := cc.g * cc.r * n; total != want {
-			fails = append(fails, Fail{"conc.panic", fmt.Sprintf("%d of %d concurrent calls of the PCR worker did not return (log.Fatal in a worker goroutine)", want-total, want)})
+		if started < cc.g*cc.r*n {
+			stat("conc:worker-rounds-cut-at-budget")
+		}
+		if total != started {
+			fails = append(fails, Fail{"conc.panic", fmt.Sprintf("%d of %d concurrent calls of the PCR worker did not return (log.Fatal in a worker goroutine)", started-total, started)})
 		}
 		if first != nil {
 			sig := "conc.differs"
@@ -371,7 +385,12 @@ func c11ConcCliRun(cc c11ConcCase, concurrent bool) (string, []Fail) {
 		}
 		nbad, total := 0, 0
 		firstAt, firstRound, firstGot := -1, 0, ""
+		t0 := time.Now()
 		for round := 0; round < cc.r; round++ {
+			if round > 0 && time.Since(t0) > 20*time.Second*watchdogScale() {
+				stat("conc:cli-rounds-cut-at-budget")
+				break
+			}
 			// another arrival order of the templates every round
 			order := append(append([]int{}, all[round%n:]...), all[:round%n]...)
 			got, problem := c11ConcCliPipe(cc, order)
@@ -703,9 +722,12 @@ func c11GenConc(rng *rand.Rand, tier string, emit func(string)) {
 	}
 	var raceLines []string
 	for c := 0; c < ncase; c++ {
-		fl, rl := 8+rng.Intn(13), 8+rng.Intn(13)
+		// primers of 12..22 positions and a maximal length > 0: the number of amplicons stays linear in the template length
+		// (with short primers, budget 2 and no maximal length every pair of chance sites of a template is an amplicon)
+		fl, rl := 12+rng.Intn(11), 12+rng.Intn(11)
 		fw, rv := c11RandPrimer(rng, fl, 8), c11RandPrimer(rng, rl, 8)
-		if c%4 == 3 {
+		ext := c%4 == 3
+		if ext {
 			fw = c11RandPrimerExt(rng, fl)
 		}
 		F, okF := c11Primer(fw)
@@ -716,8 +738,11 @@ func c11GenConc(rng *rand.Rand, tier string, emit func(string)) {
 			R, _ = c11Primer(rv)
 		}
 		o := c11Opt{fwd: fw, rev: rv, ef: rng.Intn(3), er: rng.Intn(3), ext: -1}
+		if ext && okF && okR && o.ef > 1 {
+			o.ef = 1 // a negated position accepts three symbols out of four
+		}
 		maxgap := 30 + rng.Intn(60)
-		o.max = []int{0, maxgap, maxgap / 2, 3 * maxgap}[rng.Intn(4)]
+		o.max = []int{maxgap, maxgap, maxgap / 2, 3 * maxgap}[rng.Intn(4)]
 		o.min = []int{0, 0, 5, maxgap / 3}[rng.Intn(4)]
 		if o.max != 0 && o.min > o.max {
 			o.min = 0
